@@ -249,6 +249,27 @@ def op_fn_posonly_and_stray(d):
     return "\n".join(out)
 
 
+DOC_TWO_PHRASINGS = [
+    "Summary.\n\n:param width: target width. Default value is 640. A negative width defaults to 0.\n:type width: ```int```\n",
+    "Summary.\n\n:param mode: the mode (default: 'fast'). Defaults to 'slow' on small inputs. Default is 'mid'.\n",
+    "Summary.\n\nArgs:\n  ratio (float): the ratio, defaults to 0.5; Default value is 0.25. By default 0.75\n",
+]
+
+
+def op_doc_two_default_phrasings(d):
+    # one description announcing its default in two or three different phrasings: which one wins must not depend on anything but the text
+    import cdd.docstring.parse
+
+    out = []
+    for doc in DOC_TWO_PHRASINGS:
+        for edd in (False, True):
+            try:
+                out.append(ir_text(cdd.docstring.parse.docstring(doc, emit_default_doc=edd)))
+            except Exception as e:
+                out.append("EXC:" + type(e).__name__)
+    return "\n".join(out)
+
+
 def op_class_merge(d):
     import cdd.class_.parse
 
@@ -485,6 +506,7 @@ OPS = OrderedDict(
         ("fn_perm", op_fn_perm),
         ("fn_google_subset", op_fn_google_subset),
         ("fn_posonly_and_stray", op_fn_posonly_and_stray),
+        ("doc_two_default_phrasings", op_doc_two_default_phrasings),
         ("class_merge", op_class_merge),
         ("emit_docstring", op_emit_docstring),
         ("emit_class", op_emit_class),
